@@ -9,6 +9,15 @@
 (* {"ev":"reset","h":H}                                                    *)
 (* {"ev":"unseal","h":H,"cls":C,"mut":[regions],"rel":R,"seq":N,          *)
 (*  "ok":B,"dup":B,"same":B,"clear":B}                                     *)
+(* {"ev":"rekey","h":H}  the two routers ran a key exchange again: the     *)
+(*  receiving session H - which exists - has new keys now (set up on a new *)
+(*  session object or in place, the property does not care) and the        *)
+(*  sender's frames under the new keys are new frames: numbering (seq is   *)
+(*  relative to the sender's first frame under the current keys) and the   *)
+(*  set of accepted frames start over.                                     *)
+(* an unseal event may carry "stale":TRUE - the frame was sealed under     *)
+(*  keys that a later key exchange of the same two routers has replaced;   *)
+(*  it no longer belongs to the session and is never delivered.            *)
 (***************************************************************************)
 EXTENDS FrameSeal
 
@@ -24,8 +33,14 @@ Reset == /\ Ev.ev = "reset"
          /\ acc' = [h \in DOMAIN acc \cup {Ev.h} |-> IF h = Ev.h THEN {} ELSE acc[h]]
          /\ newest' = [h \in DOMAIN newest \cup {Ev.h} |-> IF h = Ev.h THEN 0 ELSE newest[h]]
 
+Rekey == /\ Ev.ev = "rekey"
+         /\ Ev.h \in DOMAIN acc
+         /\ acc' = [acc EXCEPT ![Ev.h] = {}]
+         /\ newest' = [newest EXCEPT ![Ev.h] = 0]
+
 Intact == ToSet(Ev.mut) \cap Protected = {}
-RelOK == Ev.rel = "correct" \/ (Ev.rel = "otherReceiver" /\ Ev.cls = "signed")
+Stale == "stale" \in DOMAIN Ev /\ Ev.stale
+RelOK == ~Stale /\ (Ev.rel = "correct" \/ (Ev.rel = "otherReceiver" /\ Ev.cls = "signed"))
 Fresh == Ev.seq \notin acc[Ev.h]
 InWindow == Ev.seq > newest[Ev.h] \/ (Ev.cls # "signed" /\ newest[Ev.h] - Ev.seq <= W)
 
@@ -43,7 +58,7 @@ Unseal == /\ Ev.ev = "unseal"
           /\ newest' = IF Ev.ok /\ Ev.seq > newest[Ev.h]
                        THEN [newest EXCEPT ![Ev.h] = Ev.seq] ELSE newest
 
-TraceNext == l <= Len(Trace) /\ l' = l + 1 /\ (Reset \/ Unseal) /\ UNCHANGED vars
+TraceNext == l <= Len(Trace) /\ l' = l + 1 /\ (Reset \/ Rekey \/ Unseal) /\ UNCHANGED vars
 
 TraceAccepted ==
   LET d == TLCGet("stats").diameter
